@@ -720,7 +720,7 @@ def instantiate_fn(fs, item, em):
                     k += 1
                 if not found:
                     degraded.append("extend rule: statement %d not found" % n)
-            elif rule in ("iter_any", "iter_all", "iter_position"):
+            elif rule in ("iter_any", "iter_all", "iter_position", "iter_find_map"):
                 meth = rule[5:]
                 cnt = 0
                 found = False
@@ -859,6 +859,46 @@ def instantiate_fn(fs, item, em):
                     k += 1
                 if not found:
                     degraded.append("%s rule: occurrence %d not found" % (rule, n))
+            elif rule == "for_each":
+                # ITER.for_each(|x| { BODY });   ->   for x in it: ITER invariant .. { BODY }   (R-for-each)
+                cnt = 0
+                found = False
+                k = lo
+                while k + 2 < hi:
+                    if toks[k].text == "." and toks[k + 1].text == "for_each" and toks[k + 2].text == "(":
+                        cnt += 1
+                        if cnt == max(n, 1):
+                            r = recv_start(toks, k)
+                            iter_txt = text[toks[r].start:toks[k - 1].end]
+                            fclose = match_close(toks, k + 2)
+                            if toks[fclose + 1].text != ";":
+                                raise GenError("%s: for_each rule: statement must end with ';'" % fnkey)
+                            # closure |x| {BODY}
+                            if toks[k + 3].text != "|" or toks[k + 5].text != "|" or toks[k + 6].text != "{":
+                                raise GenError("%s: for_each rule: expected `|x| { .. }`" % fnkey)
+                            var = toks[k + 4].text
+                            bclose = match_close(toks, k + 6)
+                            it = kws.get("iter", "__it")
+                            inv = []
+                            if kws.get("invariant"):
+                                inv.append("invariant")
+                                for ci, cexpr in enumerate(split_top(kws["invariant"]), 1):
+                                    obid = "%s#fe%dinv%d" % (fnkey, cnt, ci)
+                                    inv.append("    %s,  /*@ob %s*/" % (cexpr, obid))
+                                    em._pending.append({"id": obid, "kind": "loop-invariant", "fn": fnkey,
+                                                        "tags": list(fs.tags), "text": cexpr, "marker": obid})
+                            edits.append((toks[r].start, toks[k + 6].start, "for %s in %s: %s\n" % (var, it, iter_txt) +
+                                          "\n".join("                " + x for x in inv) + "\n            "))
+                            if kws.get("body"):
+                                edits.append((toks[k + 6].end, toks[k + 6].end, " " + kws["body"]))
+                            edits.append((toks[bclose].end, toks[fclose + 1].end, ""))
+                            log.append("R-for-each: `%s.for_each(|%s| {..});` rewritten to a for loop (line %d)" % (
+                                iter_txt, var, item.line0 + text.count("\n", 0, toks[k].start)))
+                            found = True
+                            break
+                    k += 1
+                if not found:
+                    degraded.append("for_each rule: occurrence %d not found" % n)
             elif rule == "collect_result":
                 # X.iter().cloned().map(F).collect::<Result<Vec<T>, E>>()?   (R-collect-result)
                 cnt = 0
@@ -919,15 +959,19 @@ def instantiate_fn(fs, item, em):
                 raise GenError("%s: unknown rule %s" % (fnkey, rule))
         # ---- anchors
         for kind, anchor, nth, atext in fs.anchors:
-            idxs = [m.start() for m in re.finditer(re.escape(anchor), text)]
+            # whitespace in an anchor matches any run of whitespace (so an anchor may span lines)
+            apat = r"\s+".join(re.escape(w) for w in anchor.split())
+            ms = [m for m in re.finditer(apat, text)]
             body_lo = toks[lo].start
-            idxs = [i for i in idxs if i >= body_lo]
+            ms = [m for m in ms if m.start() >= body_lo]
+            idxs = [m.start() for m in ms]
+            alens = [m.end() - m.start() for m in ms]
             if len(idxs) <= nth:
                 degraded.append("anchor %r (nth=%d) not found" % (anchor, nth))
                 continue
             if nth == 0 and len(idxs) > 1 and False:
                 raise GenError("%s: anchor %r is ambiguous" % (fnkey, anchor))
-            p = idxs[nth] if kind == "before" else idxs[nth] + len(anchor)
+            p = idxs[nth] if kind == "before" else idxs[nth] + alens[nth]
             edits.append((p, p, (" " if kind == "after" else "") + atext.strip() + ("\n        " if kind == "before" else "")))
     else:
         if fs.closures or fs.loops or fs.anchors or fs.rules:
